@@ -8,6 +8,7 @@ import (
 	"go/ast"
 	"go/token"
 	"go/types"
+	"strings"
 )
 
 // externalPure lists functions outside the library (and builtins) that do not write memory
@@ -170,5 +171,17 @@ func (ef *effects) callPure(call *ast.CallExpr) bool {
 		}
 	}
 	name := ef.m.calleeName(call)
-	return externalPure[name]
+	return isExternalPure(name)
+}
+
+// isExternalPure: an external function that writes no memory of the library. The functions of
+// package math and math/bits take and return scalars only.
+func isExternalPure(name string) bool {
+	if externalPure[name] {
+		return true
+	}
+	if strings.HasPrefix(name, "math.") || strings.HasPrefix(name, "math/bits.") {
+		return true
+	}
+	return false
 }
